@@ -8,11 +8,15 @@ are compared event for event with the Lean model M5 (Drive/Serial.lean: `instanc
 Monitors (implementation only): exactly one runtime object per reachable configuration, attributes
 wired like the graph (identity of shared and cyclic references), `__post_init__` exactly once per object
 with every parameter already set, every pre-task executed exactly once, init tasks once, in order,
-after the pre-tasks and before the task body; thorough: the same counts in real job processes."""
+after the pre-tasks and before the task body; thorough: the same counts in real job processes.
+Cases `c13m` (c13x_multiroot.py, impl/c13x_multiroot_worker.py): several graphs saved together and loaded as runtime objects
+through `from_state_dict` / `load` (as_instance=True): the returned value mirrors the written one, one object per
+configuration across roots, `__post_init__` once on every object the caller receives, after its parameters."""
 import random
 
 from .. import common, seriallib
 from ..translate import serialflags
+from . import c13x_multiroot
 
 PROP = "C13"
 MODULES = ["XpmVerif.Properties.C13"]
@@ -30,7 +34,9 @@ def correspond(ctx):
     ctx.rule = ("a case = generated class library (real package, classes log __init__/__post_init__/execute) + configuration graph (<= ~14 nodes: sharing, "
                 "cycles, pre-tasks shared between nodes, init tasks, task outputs) + instance() on the root (35%: first on another node with the same "
                 "ObjectStore) + params.json -> run() (task roots) or fromParameters(as_instance=True); non-trivial = at least one nested configuration "
-                "reference; distinct = hash of (library, graph, calls)")
+                "reference; distinct = hash of (library, graph, calls); + cases 'c13m': 1-3 such graphs (a later one may share a configuration with an earlier "
+                "one) listed in a list / dict / nested value (every root, any order; sometimes an inner node or a repeated entry), written with "
+                "state_dict or save and loaded with from_state_dict / load (as_instance=True)")
     ctx.assumptions += [
         "an ObjectStore passed to instance() only holds objects of completed earlier calls (every stub is constructed)",
         "no configuration is both a pre-task and an init task of the loaded task; init task lists hold no duplicates",
@@ -39,6 +45,12 @@ def correspond(ctx):
     libs, cases = seriallib.make_cases(ctx, rng, "c13", ctx.scale(6, 60), ctx.scale(120, 200), "c13")
     recs = seriallib.run(ctx, libs, cases, shards=ctx.scale(8, 12))
     seriallib.evaluate(ctx, libs, cases, recs, "call log / constructed objects")
+    # several graphs written together (list / dict of configurations) and loaded as runtime objects through the other
+    # public loaders: state_dict -> from_state_dict(as_instance=True), save -> load(as_instance=True); implementation-only monitors
+    mrng = random.Random(f"c13-multiroot-{ctx.seed}")
+    mlibs, mcases = c13x_multiroot.make_cases(ctx, mrng, ctx.scale(4, 12), ctx.scale(60, 120), "c13m")
+    mrecs = seriallib.run(ctx, mlibs, mcases, shards=ctx.scale(8, 12))
+    seriallib.evaluate(ctx, mlibs, mcases, mrecs, "values with several roots loaded as runtime objects", with_model=False)
     if not ctx.quick():
         plibs, pcases = seriallib.make_proc_cases(ctx, rng, "c13", 8, 15, "c13p")
         precs = seriallib.run(ctx, plibs, pcases, shards=12)
@@ -81,7 +93,7 @@ def run_witness(ctx, finding):
 
 def replay(ctx, obj):
     prove(ctx)
-    n = seriallib.replay_cases(ctx, obj, ("c13", "proc", "witness"))
+    n = seriallib.replay_cases(ctx, obj, ("c13", "c13m", "proc", "witness"))
     if n == 0:
         correspond(ctx)
     return common.verdict(ctx, search)
